@@ -8,4 +8,24 @@ CHECKS = {
   note="Nothing beyond n<=5 vertices is claimed; reference is 30 lines of boolean matrix code.",
   design="§5.C26"),
 }
+CHECKS.update({
+ "C01": dict(
+  category="model_checking",
+  technique="bounded exhaustive enumeration of grammars x input configs x table options x all token strings; explicit-state run of the table-driven parser vs a CFG language oracle",
+  text="Layer A: every reduced grammar of the scope (<=2-3 nonterminals, 2-3 terminals, <=4-5 rules, RHS<=2-3) x 5 input configurations (eoi/no-eoi, several inputs) x 6 subsets of optimizeTables/defaultReduce/minimizeDFA that lalr.Compile accepts without conflicts is run on EVERY token string of length<=5 through a line-by-line transcription of the generated parser loop; accept/reject, consumed prefix for no-eoi inputs and the error token index must equal a dynamic-programming CFG oracle (Lang_L, viable prefixes); non-termination is detected by exact configuration repeat. Layer B (generated Go code, real lexer+parser built with go build) binds the transcription to the templates.",
+  note="Complete within the stated scope and L; the interpreter is a model of go_parser.go.tmpl validated against generated code by Layer B (traces_validated_against_impl). Grammars with precedence, lookaheads, lalr(k), recovery are C04/C08/C07/C19.",
+  design="§5.C01"),
+ "C03": dict(
+  category="exploration",
+  technique="bounded exhaustive enumeration of grammars; state-by-state comparison with an independent canonical LR(1)-merge reference construction",
+  text="Every rule set of the scope (raw: unreachable, unproductive, undefined, cyclic and nullable nonterminals included) x 5 input configurations x %expect variations is compiled with lalr.Compile and compared with a textbook LALR(1) automaton (LR(1) item sets merged by kernel): isomorphic state graphs from every input state, final states, LR(0) shortcut only where the statement allows it, every (state, terminal) action, exact SR/RR counts, error iff counts differ from expectations, and exactly the conflicting rules named in the diagnostics.",
+  note="Reference shares no algorithm with lalr/compile.go (DeRemer-Pennello over goto transitions). Precedence resolution is C04. One lenient spot: an input state may consult lookahead where the LR(0) shortcut would be permitted (counted in evidence).",
+  design="§5.C03"),
+ "C05": dict(
+  category="exploration",
+  technique="bounded exhaustive enumeration of grammars; every (state, symbol) cell decoded from both encodings and compared",
+  text="For every rule set of the scope (conflicting grammars included) x input configurations x precedence variants with %nonassoc x defaultReduce x minimizeDFA, plus scaled families (wide/chain/expr up to 24 terminals), every (state, terminal) action, every defined (state, nonterminal) goto and every terminal gotoState is decoded from the displacement encoding with the template's lookup code and compared with the default encoding; with defaultReduce only 'plain error -> the state's most frequent reduction' is allowed, %nonassoc errors must stay errors and nothing may become a shift.",
+  note="Decode functions are transcriptions of the six-line lookups in go_parser.go.tmpl (bound to the template by C01 Layer B).",
+  design="§5.C05"),
+})
 NOT_APPLICABLE_REASON = {}
